@@ -2841,8 +2841,7 @@ template< size_t L>
       return *this;
    const size_t  idx = first - cbegin();
    const size_t  count1 = (last == cend()) ? (mLength - idx) : (last - first);
-   const size_t  count2 = (last2 == end()) ? std::strlen( &(*first2))
-      : (last2 - first2);
+   const size_t  count2 = last2 - first2;
    return replaceImpl( idx, count1, &(*first2), 0, count2);
 } // FixedString< L>::replace
 
